@@ -303,6 +303,7 @@ pub fn all() -> Vec<CheckDef> {
                 Family { enumerate: Some(ebrworld::emicro_enumerate), variant: "", name: "ebr-micro-two-preemption-points-enumerated", strategy: |_| ebrworld::e1(), cases: ebrworld::emicro_total },
 
                 Family { enumerate: None, variant: "", name: "ebr-free", strategy: |t| ebrworld::free(ebrworld::EW_DEFAULT, 4, t.pick(24, 36), t.pick(10, 17)), cases: |t| t.pick(40_000, 400_000) },
+                Family { enumerate: None, variant: "", name: "E2-nested-guards-reactivated-repeatedly", strategy: |_| ebrworld::e2(), cases: |t| t.pick(8_000, 80_000) },
                 Family { enumerate: None, variant: "", name: "ebr-exit", strategy: |t| ebrworld::free(ebrworld::EW_EXIT, 3, t.pick(16, 24), t.pick(8, 14)), cases: |t| t.pick(10_000, 100_000) },
                 Family { enumerate: None, variant: "", name: "private-collector", strategy: |_| ebrworld::private(ebrworld::EW_DEFAULT, 50), cases: |t| t.pick(10_000, 100_000) },
             ],
@@ -347,6 +348,7 @@ pub fn all() -> Vec<CheckDef> {
             families: vec![
                 Family { enumerate: Some(ebrworld::emicro_enumerate), variant: "", name: "ebr-micro-two-preemption-points-enumerated", strategy: |_| ebrworld::e1(), cases: ebrworld::emicro_total },
 
+                Family { enumerate: None, variant: "", name: "E2-nested-guards-reactivated-repeatedly", strategy: |_| ebrworld::e2(), cases: |t| t.pick(8_000, 80_000) },
                 Family { enumerate: None, variant: "", name: "ebr-guards", strategy: |t| ebrworld::free(ebrworld::EW_GUARDS, 3, t.pick(30, 45), t.pick(6, 11)), cases: |t| t.pick(40_000, 400_000) },
                 Family { enumerate: None, variant: "", name: "private-collector", strategy: |_| ebrworld::private(ebrworld::EW_GUARDS, 60), cases: |t| t.pick(16_000, 160_000) },
                 Family { enumerate: None, variant: "da", name: "ebr-guards-debug-assertions", strategy: |t| ebrworld::free(ebrworld::EW_GUARDS, 3, t.pick(30, 45), t.pick(6, 11)), cases: |t| t.pick(12_000, 120_000) },
@@ -361,6 +363,7 @@ pub fn all() -> Vec<CheckDef> {
         CheckDef {
             id: "C17",
             families: vec![
+                Family { enumerate: Some(queuelist::qmicro_enumerate), variant: "", name: "queue-micro-two-preemption-points-enumerated", strategy: |_| queuelist::queue_strategy(), cases: queuelist::qmicro_total },
                 Family { enumerate: None, variant: "", name: "queue-histories", strategy: |_| queuelist::queue_strategy(), cases: |t| t.pick(60_000, 600_000) },
                 Family { enumerate: None, variant: "", name: "Q1-pop-that-keeps-losing-the-head-race", strategy: |_| queuelist::queue_starvation_strategy(), cases: |t| t.pick(6_000, 60_000) },
             ],
@@ -373,6 +376,7 @@ pub fn all() -> Vec<CheckDef> {
         CheckDef {
             id: "C18",
             families: vec![
+                Family { enumerate: Some(queuelist::lmicro_enumerate), variant: "", name: "list-micro-two-preemption-points-enumerated", strategy: |_| queuelist::list_strategy(), cases: queuelist::lmicro_total },
                 Family { enumerate: None, variant: "", name: "list-histories", strategy: |_| queuelist::list_strategy(), cases: |t| t.pick(60_000, 600_000) },
                 Family { enumerate: None, variant: "", name: "registry-churn", strategy: |t| ebrworld::free(ebrworld::EW_CHURN, 4, t.pick(10, 15), t.pick(14, 23)), cases: |t| t.pick(60_000, 600_000) },
             ],
